@@ -25,6 +25,15 @@ PROPS = {
         "assumptions": ["sort.Strings inside checkSlice sorts (modelled by insertion sort; only the sorted result is used)",
                         "fmt %T names of the 30 value types are as tabulated in Kind.goName"],
     },
+    "C12": {
+        "theorems": ["C12_readonly", "C12_no_write_access", "C12_race_free", "C12_queries_pure", "C12_write_races"],
+        "facts": ["Facts.writesThrough: for every function/method with a *Schema or *Type receiver or parameter, does it assign through it (directly, via delete, via a Type value obtained from the schema, or via a call to a function that does); regenerated on every run; C12_readonly is `decide` over it"],
+        "suites": [("shared", 1500, 40000)],
+        "racer": (8, 2500, 60000),
+        "level_text": "PARTIAL by nature (DESIGN.md §6 C12): in the effect model every operation of the property performs only read accesses to the shared schema, because none of the Go functions it runs assigns through the schema - a regenerated syntactic fact checked by `decide` (C12_readonly); hence no interleaving of any number of threads of any length contains a race (C12_race_free), and a write would race (C12_write_races). The Go memory model is abstracted to read/write accesses of the shared schema and the write facts are syntactic (go/ast, intra-procedural taint through GetType results). Dynamic side: every operation is run on a shared schema with a deep snapshot (content and identity of the Types slice and of every Attrs/Rels map) before and after; and a -race build runs 2..16 goroutines with random mixes of the operations (schedule exploration: validation and replay, not the proof).",
+        "level_note": "Trusted: Lean kernel; the fact extractor's write analysis (harness/cmd/extract); the Go race detector for the dynamic runs. Not modelled: the Go memory model beyond read/write conflicts; user-supplied NewFunc closures; Type.NewFunc being set concurrently (documented as unsafe by the library).",
+        "assumptions": ["reads of Go maps and slices by several goroutines without a writer are race-free (Go memory model)"],
+    },
     "C14": {
         "theorems": ["C14_inv", "C14_lookup", "C14_atomic", "C14_remove_absent", "C14_twoway"],
         "suites": [("schema14", 1500, 60000)],
